@@ -110,6 +110,8 @@ def run(ctx):
     res.rules["Q-ISO"] = "isolated_nodes / is_isolated decide isolation from the neighbour set (directly or by delegation), never from incidence lists or degrees"
     with res.guard("RC.check_isolation(ctx, res, Hypergraph)"):
         RC.check_isolation(ctx, res, "Hypergraph")
+    with res.guard("RC.check_isolation(ctx, res, targets=cc.isolated_nodes / cc.is_isolated)"):
+        RC.check_isolation(ctx, res, targets=[d for d in ("cc.isolated_nodes", "cc.is_isolated") if ctx.has(d)])
     with res.guard("RC.check_memo_keys"):
         RC.check_memo_keys(ctx, res, "Hypergraph")
 
